@@ -585,7 +585,8 @@ impl<'a> Parser<'a> {
     ) -> Result<FunctionDeclaration, JsError> {
         self.require_token(&TokenKind::Function)?;
         let mut func = self.parse_function_declaration_inner()?;
-        func.async_ = is_async;
+        // (after overload signatures the implementation carries its own `async`)
+        func.async_ = is_async || func.async_;
         Ok(func)
     }
 
@@ -604,12 +605,16 @@ impl<'a> Parser<'a> {
         let mut return_type = self.parse_optional_return_type()?;
         // Overload signatures (`function f(a: number): number;`) declare nothing at run
         // time: skip them up to the implementation that follows.
+        let mut async_impl = false;
         while id.is_some() && !self.check(&TokenKind::LBrace) {
             self.match_token(&TokenKind::Semicolon);
-            if self.check(&TokenKind::Export) && self.peek_is(&TokenKind::Function) {
+            if self.check(&TokenKind::Export)
+                && (self.peek_is(&TokenKind::Function) || self.peek_is(&TokenKind::Async))
+            {
                 self.advance();
             }
-            if self.check(&TokenKind::Async) && self.peek_is(&TokenKind::Function) {
+            async_impl = self.check(&TokenKind::Async) && self.peek_is(&TokenKind::Function);
+            if async_impl {
                 self.advance();
             }
             if !self.match_token(&TokenKind::Function) {
@@ -631,7 +636,7 @@ impl<'a> Parser<'a> {
             type_parameters,
             body,
             generator,
-            async_: false,
+            async_: async_impl,
             span,
         })
     }
